@@ -140,7 +140,7 @@ func atLeast(v ssa.Value, k int64, at *ssa.BasicBlock) bool {
 // (The additive system divided the "absolute value" of the minimum integer, which is negative.)
 func c01RepeatCounts(c *core.Check) {
 	p := c.Prog
-	r := c.Rule("R31", "strings.Repeat never gets a negative count: at every call in the library the count is non-negative by construction (constant, length, counter only incremented, sums and quotients of those), or the call is reached only when a comparison of the count with zero or a positive constant excluded the negative values; named sites: the count is a validated property value", 5)
+	r := c.Rule("R31", "strings.Repeat never gets a negative count: at every call in the library the count is non-negative by construction (constant, length, counter only incremented, sums and quotients of those), or the call is reached only when a comparison of the count with zero or a positive constant excluded the negative values; named sites: the count is a validated property value", 4)
 	exempt := map[string]string{
 		"text.(*TextLayoutPango).setTabs": "tab-size: css/validation.tabSize accepts an integer only when ValueF >= 0",
 		"css/parser.ParseColor":           "the multiplier is a field of the constant table of hash patterns (1 or 2)",
